@@ -450,6 +450,75 @@ func signatureReplayScenario(r *rng, viol func(clause, sig, detail string)) *sim
 		desc: map[string]any{"scenario": "replayed honest signatures on forged votes", "nodes": n, "powers": pw, "byzantine": byz, "forged_messages": bv, "max_round": g.maxRound(), "all_decided": decided}}
 }
 
+// late starter with queued messages: one honest participant starts the instance LATE; everything sent to it before is
+// queued by the participant and delivered when it starts.  Among the queued messages is a validly signed QUALITY vote of a
+// faulty member (< 1/3 power) for a chain on a FOREIGN base -- it passes stateless validation and is dropped when the
+// instance begins (the base is only known then).  The other honest participants have decided by then and fall silent
+// except for their queued DECIDE votes; the latecomer must still decide (from the queue, without waiting for anybody).
+func lateStarterScenario(r *rng, viol func(clause, sig, detail string)) *simResult {
+	n := 4 + r.intn(2)
+	pw := make([]int64, n)
+	byz := make([]bool, n)
+	for i := range pw {
+		pw[i] = int64(10 + r.intn(5))
+	}
+	bi := r.intn(n)
+	byz[bi] = true
+	pw[bi] = 3
+	late := (bi + 1 + r.intn(n-1)) % n
+	base := mkTipset(0, "base")
+	mk := func(b *gpbft.TipSet, tag string, k int) *gpbft.ECChain {
+		ts := []*gpbft.TipSet{b}
+		for i := 1; i <= k; i++ {
+			ts = append(ts, mkTipset(int64(i), fmt.Sprintf("%s%d", tag, i)))
+		}
+		return &gpbft.ECChain{TipSets: ts}
+	}
+	common := mk(base, "c", 1+r.intn(2))
+	inputs := make([]*gpbft.ECChain, n)
+	for i := range inputs {
+		inputs[i] = common
+	}
+	cfg := gnetCfg{n: n, powers: pw, byz: byz, inputs: inputs, delta: 2 * time.Second}
+	g := newGnet(r, cfg, viol)
+	g.stabilised = true // the network is timely throughout; only the start of one participant is late
+	// the faulty member's votes on a foreign base, handed to the latecomer only (before it starts)
+	foreign := mk(mkTipset(0, "another-base"), "f", 1)
+	bv := 0
+	for _, ph := range []gpbft.Phase{gpbft.QUALITY_PHASE, gpbft.PREPARE_PHASE} {
+		mb := &gpbft.MessageBuilder{NetworkName: verifNet, PowerTable: g.pt,
+			Payload: gpbft.Payload{Instance: g.instance, Round: 0, Phase: ph, SupplementalData: g.supp, Value: foreign}}
+		if msg, err := mb.Build(g.ctx, g.backend, g.nodes[bi].id); err == nil {
+			g.votes = append(g.votes, &sentVote{sender: bi, msg: msg, honest: false, seq: len(g.votes)})
+			g.pool = append(g.pool, &pendingMsg{to: late, msg: msg, from: bi, ready: g.now})
+			bv++
+		}
+	}
+	for i := range g.nodes {
+		if i != late {
+			g.start(i)
+		}
+	}
+	g.run(20000, nil) // the others decide; everything addressed to the latecomer has been handed to its participant
+	g.start(late)
+	roundAtStab := g.maxRound()
+	decided := g.run(60000, nil)
+	g.checkDecisions()
+	dl := false
+	for _, l := range g.log {
+		if strings.HasPrefix(l, "deadlock") {
+			dl = true
+		}
+	}
+	ln := g.nodes[late]
+	if ln.decided == nil {
+		viol("every honest participant that has started the instance decides once the network is timely (messages that arrived before it started are delivered when it starts)",
+			"c06-late-starter-undecided", fmt.Sprintf("participant %d started last with the votes of all others queued (and one undeliverable vote of a faulty member in front); it is in %+v, undecided", late, ln.p.Progress().Instant))
+	}
+	return &simResult{g: g, decided: decided, byzVotes: bv, roundAtStab: roundAtStab, deadlock: dl && !decided, budget: !decided && !dl,
+		desc: map[string]any{"scenario": "late starter with queued messages", "nodes": n, "powers": pw, "byzantine": byz, "late": late, "votes": len(g.votes), "max_round": g.maxRound(), "all_decided": decided}}
+}
+
 // byte-scale storage powers (hundreds to thousands of TiB, as on mainnet): the 16-bit scaled powers that every quorum tally
 // uses are derived from them; no Byzantine member, honest inputs fork, random delays, then a timely phase.  Agreement and
 // the sanity of the scaled table (0 <= scaled power, sum <= 0xffff, order preserved) are monitored.
@@ -883,7 +952,7 @@ func shuffled(r *rng, n int) []int {
 // agreement and validity are proved.
 func runSpecSim(o *out, r *rng, thorough bool, pid string) {
 	o.Rule = "adversarial multi-node executions of REAL gpbft.Participants (3-7 nodes, skewed power tables, forked inputs over a common base, Byzantine identities < 1/3 scaled power playing equivocation in every step, foreign-chain CONVERGE, justification recombination, decide injection, replays; random delay/reorder/drop of re-broadcasts, staggered starts, then a timely phase); each execution's complete vote trace is replayed inside Coq against the Layer-S guards (conforms); non-trivial = the run left round 0 or contains >=1 Byzantine message"
-	runs := 40
+	runs := 64
 	if thorough {
 		runs = 600
 	}
@@ -942,7 +1011,7 @@ func runSpecSim(o *out, r *rng, thorough bool, pid string) {
 	// network-level correspondence: real multi-node executions replayed as schedules of the Layer-N NETWORK model; inside Coq
 	// the schedule must be admissible (RefineRun.all_okb: the hypotheses of the network theorems hold on real traffic) and the
 	// model members must end where the real participants ended
-	nt := 6
+	nt := 10
 	if thorough {
 		nt = 80
 	}
@@ -960,7 +1029,7 @@ func runSpecSim(o *out, r *rng, thorough bool, pid string) {
 	}
 	if pid == "C02" {
 		// second sentence of C02: unanimous honest input + strong honest quorum + synchrony + no faulty sender => that chain is decided
-		hp := 25
+		hp := 40
 		if thorough {
 			hp = 300
 		}
